@@ -16,6 +16,7 @@ mod c09;
 mod gen;
 mod c13;
 mod c14;
+mod c16;
 mod c18;
 mod c20;
 mod hist;
@@ -97,6 +98,7 @@ fn main() {
         "C09" => c09::run(&mut ctx),
         "C13" => c13::run(&mut ctx),
         "C14" => c14::run(&mut ctx),
+        "C16" => c16::run(&mut ctx),
         "C18" => c18::run(&mut ctx),
         other => { eprintln!("unknown property {other}"); std::process::exit(2); }
     }
